@@ -187,10 +187,23 @@ fn do_distribute_descriptions(
             }
         }
         Expr::Alternative { children, span } => {
+            // Every alternative gets its own copy; the description is spent for what follows the
+            // alternative only if every branch has used it.
+            let mut spent_by_all = description.is_some();
             let new_children: Vec<ExprId> = children
                 .iter()
-                .map(|e| do_distribute_descriptions(arena, *e, &mut description.clone()))
+                .map(|e| {
+                    let mut branch_description = description.clone();
+                    let new_child = do_distribute_descriptions(arena, *e, &mut branch_description);
+                    if branch_description.is_some() {
+                        spent_by_all = false;
+                    }
+                    new_child
+                })
                 .collect();
+            if spent_by_all {
+                *description = None;
+            }
             if children == new_children {
                 expr_id
             } else {
